@@ -61,6 +61,7 @@ type c10Cb struct {
 type c10Clock struct {
 	mu     sync.Mutex
 	now    int64
+	tick   int64 // the clock moves by tick after every read made by the collector's own goroutine
 	timers []*c10Timer
 	cbs    []*c10Cb
 	gids   map[uint64]*c10Cb
@@ -81,6 +82,7 @@ func (c *c10Clock) Now() time.Time {
 	cb := c.gids[gid]
 	if cb == nil {
 		t := c10Epoch.Add(time.Duration(c.now))
+		c.now += c.tick
 		c.mu.Unlock()
 		return t
 	}
@@ -300,8 +302,8 @@ type c10Sim struct {
 	ttl  int64 // ns
 }
 
-func newC10Sim(ttlSecs uint32) *c10Sim {
-	clk := &c10Clock{gids: map[uint64]*c10Cb{}}
+func newC10Sim(ttlSecs uint32, tick int64) *c10Sim {
+	clk := &c10Clock{gids: map[uint64]*c10Cb{}, tick: tick}
 	cp, err := collector.VerifInitCollectingProcess(collector.CollectorInput{
 		Address: "127.0.0.1:0", Protocol: "udp", MaxBufferSize: 65535, TemplateTTL: ttlSecs,
 	}, clk)
@@ -410,8 +412,8 @@ func (s *c10Sim) observe() string {
 func (s *c10Sim) Close() { s.clk.drain() }
 
 // c10RunCase runs a whole case and returns the observation.
-func c10RunCase(ttlSecs uint32, acts []c10Act) string {
-	s := newC10Sim(ttlSecs)
+func c10RunCase(ttlSecs uint32, tick int64, acts []c10Act) string {
+	s := newC10Sim(ttlSecs, tick)
 	defer s.Close()
 	out := make([]string, 0, len(acts))
 	for _, a := range acts {
@@ -424,19 +426,28 @@ func c10RunCase(ttlSecs uint32, acts []c10Act) string {
 	return strings.Join(out, " ")
 }
 
-func c10CaseLine(ttlSecs uint32, acts []c10Act) string {
+func c10CaseLine(ttlSecs uint32, tick int64, acts []c10Act) string {
 	p := make([]string, 0, len(acts)+1)
-	p = append(p, fmt.Sprintf("C10 ttl %d", ttlSecs))
+	if tick != 0 {
+		p = append(p, fmt.Sprintf("C10 ttl %d tick %d", ttlSecs, tick))
+	} else {
+		p = append(p, fmt.Sprintf("C10 ttl %d", ttlSecs))
+	}
 	for _, a := range acts {
 		p = append(p, a.String())
 	}
 	return strings.Join(p, " ")
 }
 
-func c10ParseCase(t []string) (uint32, []c10Act) {
-	// t: "ttl" secs actions...
+func c10ParseCase(t []string) (uint32, int64, []c10Act) {
+	// t: "ttl" secs ["tick" ns] actions...
 	ttl := uint32(atou(t[1]))
 	t = t[2:]
+	tick := int64(0)
+	if len(t) >= 2 && t[0] == "tick" {
+		tick = atoz(t[1])
+		t = t[2:]
+	}
 	acts := []c10Act{}
 	for len(t) > 0 {
 		switch t[0] {
@@ -451,7 +462,7 @@ func c10ParseCase(t []string) (uint32, []c10Act) {
 			t = t[2:]
 		}
 	}
-	return ttl, acts
+	return ttl, tick, acts
 }
 
 // ---------------------------------------------------------------------------------------------
@@ -465,9 +476,9 @@ func c10TTLns(ttlSecs uint32) int64 {
 }
 
 // random case, generated while it runs so that most scheduling actions are enabled ones
-func c10Random(env *Env, ttlSecs uint32, depth int, nkeys int) (string, string) {
+func c10Random(env *Env, ttlSecs uint32, tick int64, depth int, nkeys int) (string, string) {
 	r := env.Rng
-	s := newC10Sim(ttlSecs)
+	s := newC10Sim(ttlSecs, tick)
 	defer s.Close()
 	ttl := c10TTLns(ttlSecs)
 	keys := c10Universe[:nkeys]
@@ -568,18 +579,18 @@ func c10Random(env *Env, ttlSecs uint32, depth int, nkeys int) (string, string) 
 	if staleEnd {
 		env.Count("random/callback-end-with-others-in-flight")
 	}
-	return c10CaseLine(ttlSecs, acts), strings.Join(obs, " ")
+	return c10CaseLine(ttlSecs, tick, acts), strings.Join(obs, " ")
 }
 
 // exhaustive enumeration of all sequences of the alphabet
 //   T k 0 (each key) [, T k 1 when tags2], B k (each key), A ttl, A ttl/2 (when half), every
 //   enabled F t, every enabled S c, every enabled E c
 // up to the given depth.
-func c10Enumerate(env *Env, ttlSecs uint32, keys []c10Key, tags2, half bool, depth int, class string) {
+func c10Enumerate(env *Env, ttlSecs uint32, tick int64, keys []c10Key, tags2, half bool, depth int, class string) {
 	ttl := c10TTLns(ttlSecs)
 	var rec func(prefix []c10Act)
 	rec = func(prefix []c10Act) {
-		s := newC10Sim(ttlSecs)
+		s := newC10Sim(ttlSecs, tick)
 		out := make([]string, 0, len(prefix))
 		for _, a := range prefix {
 			out = append(out, s.Do(a))
@@ -588,7 +599,7 @@ func c10Enumerate(env *Env, ttlSecs uint32, keys []c10Key, tags2, half bool, dep
 			// every node is a case of its own (not only the leaves), so that the shortest
 			// failing case reported is a minimal prefix
 			env.Count(class)
-			env.Emit(c10CaseLine(ttlSecs, prefix), strings.Join(out, " "))
+			env.Emit(c10CaseLine(ttlSecs, tick, prefix), strings.Join(out, " "))
 		}
 		if len(prefix) == depth || s.dead {
 			s.Close()
@@ -642,20 +653,22 @@ func runC10(env *Env) {
 					break
 				}
 			}
-			ttl, acts := c10ParseCase(c)
-			env.Emit(c10CaseLine(ttl, acts), c10RunCase(ttl, acts))
+			ttl, tick, acts := c10ParseCase(c)
+			env.Emit(c10CaseLine(ttl, tick, acts), c10RunCase(ttl, tick, acts))
 		}
 		return
 	}
 	one := c10Universe[:1]
 	if env.Thorough() {
-		c10Enumerate(env, 1, one, true, true, 7, "exhaustive/1key-2tags-depth7")
-		c10Enumerate(env, 3, one, false, false, 10, "exhaustive/1key-1tag-depth10")
-		c10Enumerate(env, 2, c10Universe, false, false, 5, "exhaustive/4keys-depth5")
+		c10Enumerate(env, 1, 0, one, true, true, 7, "exhaustive/1key-2tags-depth7")
+		c10Enumerate(env, 3, 0, one, false, false, 10, "exhaustive/1key-1tag-depth10")
+		c10Enumerate(env, 3, 1, one, false, false, 9, "exhaustive/1key-1tag-tick1-depth9")
+		c10Enumerate(env, 2, 0, c10Universe, false, false, 5, "exhaustive/4keys-depth5")
 	} else {
-		c10Enumerate(env, 1, one, true, true, 5, "exhaustive/1key-2tags-depth5")
-		c10Enumerate(env, 3, one, false, false, 8, "exhaustive/1key-1tag-depth8")
-		c10Enumerate(env, 2, c10Universe, false, false, 3, "exhaustive/4keys-depth3")
+		c10Enumerate(env, 1, 0, one, true, true, 5, "exhaustive/1key-2tags-depth5")
+		c10Enumerate(env, 3, 0, one, false, false, 8, "exhaustive/1key-1tag-depth8")
+		c10Enumerate(env, 3, 1, one, false, false, 6, "exhaustive/1key-1tag-tick1-depth6")
+		c10Enumerate(env, 2, 0, c10Universe, false, false, 3, "exhaustive/4keys-depth3")
 	}
 	n := 1500
 	if env.Thorough() {
@@ -674,8 +687,12 @@ func runC10(env *Env) {
 		if env.Rng.Intn(3) == 0 {
 			nkeys = 1
 		}
-		c, o := c10Random(env, ttls[env.Rng.Intn(len(ttls))], depth, nkeys)
+		tick := []int64{0, 0, 0, 1, 7}[env.Rng.Intn(5)]
+		c, o := c10Random(env, ttls[env.Rng.Intn(len(ttls))], tick, depth, nkeys)
 		env.Count(fmt.Sprintf("random/keys=%d", nkeys))
+		if tick != 0 {
+			env.Count("random/moving-clock")
+		}
 		env.Emit(c, o)
 	}
 }
